@@ -16,7 +16,9 @@ RULE = (
     'fractions of a tick, several ticks; seconds in logical units, '
     'milliseconds in raw units), optionally a `time at P` that matches '
     'within the next minutes of the generated wall-clock start, and an '
-    'action (on / off / set / wait) whose simulated device charges a '
+    'action (on / off / set / wait), optionally preceded by a `units` '
+    'switch to any mode (the time value in force must keep its meaning), '
+    'whose simulated device charges a '
     'generated amount of work time (none, shorter than, equal to, longer '
     'than the delay); tick length 1/16 .. 2 s; schedules = generated '
     'preemptions of the clock thread against the script thread, and in a '
@@ -51,7 +53,12 @@ def scenarios(draw):
     current = 0
     for _ in range(draw(st.integers(3, 8))):
         kind = draw(st.sampled_from(
-            ['time', 'time', 'time', 'keep', 'timeat']))
+            ['time', 'time', 'time', 'keep', 'timeat', 'units']))
+        if kind == 'units' and not isinstance(current, tuple):
+            # the pending time value is re-expressed, not changed
+            mode = draw(st.sampled_from(['raw', 'logical', 'rgb']))
+            lines.append('units ' + mode)
+            raw = mode == 'raw'
         if kind == 'time':
             current = draw(st.sampled_from(
                 [0, 0.125, 0.25, 0.5, 1.0, 1.5, 3.0]))
